@@ -39,7 +39,7 @@ pub uninterp spec fn spec_root_key_id<K>() -> Identifier;
 #[derive(PartialEq, Eq, Structural)]
 pub struct SwitchCommitmentType { pub t: u8 }
 #[allow(non_upper_case_globals)]
-impl SwitchCommitmentType { pub const Regular: SwitchCommitmentType = SwitchCommitmentType { t: 1 }; }
+impl SwitchCommitmentType { pub const Regular: SwitchCommitmentType = SwitchCommitmentType { t: 1 }; pub const None: SwitchCommitmentType = SwitchCommitmentType { t: 0 }; }
 pub trait Keychain: Sized + Clone {
     fn secp(&self) -> &Secp256k1;
     // XOR the master key with the token (grin_keychain): functional in (keychain, mask)
@@ -193,7 +193,7 @@ impl SecretKey {
     #[verifier::external_body]
     pub fn from_slice(secp: &Secp256k1, data: &[u8]) -> (r: Result<SecretKey, secp::Error>)
         // 32 bytes, non-zero, first byte < 0xFF  ==> below the curve order ==> valid
-        ensures (data@.len() == 32 && 0 < data@[0] < 0xFF) ==> r is Ok { unimplemented!() }
+        ensures (data@.len() == 32 && 0 < data@[0] < 0xFF) ==> r is Ok, r matches Ok(k) ==> k.0@ == data@ { unimplemented!() }
 }
 pub mod aggsig {
     pub use crate::aggsig_create_secnonce as create_secnonce;
@@ -274,14 +274,7 @@ impl Utc {
     pub fn now() -> (r: DateTime<Utc>) { unimplemented!() }
 }
 pub struct OnionV3Address { pub k: DalekPublicKey }
-pub uninterp spec fn spec_addr_key(parent: Identifier, index: u32) -> SecretKey;
 pub uninterp spec fn spec_ed25519_pub(sk: SecretKey) -> DalekPublicKey;
-pub mod address {
-    pub use crate::address_from_derivation_path;
-}
-#[verifier::external_body]
-pub fn address_from_derivation_path<K: Keychain>(keychain: &K, parent_key_id: &Identifier, index: u32) -> (r: Result<SecretKey, Error>)
-    ensures r matches Ok(k) ==> k == spec_addr_key(*parent_key_id, index) { unimplemented!() }
 impl OnionV3Address {
     #[verifier::external_body]
     pub fn from_private(key: &[u8; 32]) -> (r: Result<OnionV3Address, util::OnionV3AddressError>)
